@@ -9,7 +9,9 @@
 (***************************************************************************)
 EXTENDS Naturals, Sequences, FiniteSets, TLC
 CONSTANTS Deviations
-VARIABLES scn,      \* [kind, extractor, prefix, statusmap, methods : Seq([fn, ep, errs, tags, cpref, name])]
+VARIABLES scn,      \* [kind, extractor, prefix, statusmap, methods : Seq([fn, ep, errs, tags, cpref, name, meta])]
+                    \* meta: "full" = the method is annotated with its own summary, description, deprecated flag, example,
+                    \*       servers, external docs (and security for OpenAPI); "schemas" = explicit params / result schemas
                     \* statusmap: "map" = OpenAPI(error_http_status_map={2001: 400}): that error gets a response entry of its own
           heap,     \* heap[k] : Seq of error codes = the annotated `errors` list object k (1: shared, 1+j: method j's own)
           docs      \* Seq of generated abstract documents (each: Seq of entries)
@@ -20,6 +22,7 @@ ParamNames == [f1 |-> <<"a", "b">>, f2 |-> <<"items", "m">>, f3 |-> <<"flag", "o
 Required   == [f1 |-> <<"a">>,      f2 |-> <<"items", "m">>, f3 |-> <<>>,              f4 |-> <<>>]
 DocRaises  == [f1 |-> <<2002>>,     f2 |-> <<>>,             f3 |-> <<2001>>,          f4 |-> <<>>]
 ResultKind == [f1 |-> "model",      f2 |-> "list",           f3 |-> "null",            f4 |-> "any"]   \* the return annotation
+HasDoc     == [f1 |-> TRUE,         f2 |-> FALSE,            f3 |-> TRUE,              f4 |-> FALSE]   \* the function has a docstring
 
 ReadsDocstrings == scn.extractor \in {"doc", "doc+pyd"}
 RendersErrors   == scn.kind = "openrpc" \/ scn.extractor # "base"      \* the base extractor produces no response schemas at all
@@ -37,21 +40,40 @@ Documented(j) == scn.kind # "openrpc" \/ scn.methods[j].ep = "root"        \* Op
 EntryOf(j, h) ==
     LET m == scn.methods[j] IN
     [fn |-> m.fn, ep |-> m.ep, name |-> m.name,          \* name: "own" (the function's name) or an explicit exposed name
-     result |-> IF scn.extractor = "pyd" THEN ResultKind[m.fn] ELSE "na",         \* the documented result type is the method's own
-     errors |-> IF ~RendersErrors THEN {}
+     \* the documented result type is the method's own: the explicit result schema if one was annotated, else the return annotation
+     result |-> IF m.meta = "schemas" THEN "explicit_own" ELSE IF scn.extractor = "pyd" THEN ResultKind[m.fn] ELSE "na",
+     \* summary / description / deprecated / examples / servers / external docs / security are the method's own (see FacetsAllowed)
+     meta |-> "ok",
+     errors |-> IF ~(RendersErrors \/ m.meta = "schemas") THEN {}       \* an explicit result schema is always combined with the method's errors
                 ELSE SetOf(IF ErrRef(j) = 0 THEN <<>> ELSE h[ErrRef(j)]) \cup (IF ReadsDocstrings THEN SetOf(DocRaises[m.fn]) ELSE {}),
      tags |-> m.tags,
      \* the request schema (if one is produced) names the method it belongs to
-     reqname |-> IF scn.kind # "openrpc" /\ scn.extractor \in {"pyd", "doc+pyd"} THEN "own" ELSE "na",
+     reqname |-> IF scn.kind # "openrpc" /\ (scn.extractor \in {"pyd", "doc+pyd"} \/ m.meta = "schemas") THEN "own" ELSE "na",
      \* (documented parameters are the subject of C17 / Binding.tla)
-     cpref |-> IF scn.extractor = "pyd" /\ scn.kind # "openrpc" THEN m.cpref ELSE "na"]       \* prefix of the method's component schemas
+     cpref |-> IF scn.extractor = "pyd" /\ scn.kind # "openrpc" /\ m.meta # "schemas" THEN m.cpref ELSE "na"]       \* prefix of the method's component schemas
+\* The free-text facets of an entry, as classified by the driver RELATIVE TO THE METHOD THE ENTRY BELONGS TO:
+\*   "own_ann" the value the method itself was annotated with, "own_doc" text taken from the method's own docstring,
+\*   "absent", "foreign" anything else (e.g. another method's annotation); deprecated: "true" / "false" / "absent".
+\* An annotated method shows exactly its own annotations; an unannotated one shows nothing, or its own docstring's text.
+FromDoc(m) == IF HasDoc[m.fn] THEN {"absent", "own_doc"} ELSE {"absent"}
+FacetsAllowed(x, m) ==
+    IF m.meta = "full"
+    THEN /\ x.summary = "own_ann" /\ x.description = "own_ann" /\ x.deprecated = "true" /\ x.examples = "own_ann"
+         /\ x.servers = "own_ann" /\ x.extdocs = "own_ann" /\ x.security = (IF scn.kind = "openrpc" THEN "absent" ELSE "own_ann")
+    ELSE /\ x.summary \in FromDoc(m) /\ x.description \in FromDoc(m) /\ x.deprecated \in {"absent", "false"}
+         /\ x.examples = "absent" /\ x.servers = "absent" /\ x.extdocs = "absent" /\ x.security = "absent"
+MetaVerdict(e) == IF \E j \in DOMAIN scn.methods : /\ scn.methods[j].fn = e.fn /\ scn.methods[j].ep = e.ep /\ scn.methods[j].name = e.name
+                                                   /\ FacetsAllowed(e.meta, scn.methods[j])
+                  THEN "ok" ELSE "foreign"
 DocOf(h) == {EntryOf(j, h) : j \in {i \in DOMAIN scn.methods : Documented(i)}}
 
 \* a generation: appends a document, touches nothing the user owns
 \* Known deviations (known_findings.json): documents that do not validate against the official meta-schema
-\*   OpenApi30Invalid  : OpenAPI 3.0.x output built from pydantic / docstring extractor schemas (JSON-schema 2020-12 keywords)
+\*   OpenApi30Invalid  : OpenAPI 3.0.x output built from pydantic / docstring extractor schemas, or from the library's own request /
+\*                       response envelope around explicitly annotated schemas (JSON-schema 2020-12 keywords: const, examples, type null)
 \*   DocstringNullType : the docstring extractor emits "type": null for untyped parameters / results (OpenRPC validates schemas)
-MetaMayFail == \/ "OpenApi30Invalid" \in Deviations /\ scn.kind = "openapi30" /\ scn.extractor # "base"
+MetaMayFail == \/ "OpenApi30Invalid" \in Deviations /\ scn.kind = "openapi30"
+                  /\ (scn.extractor # "base" \/ \E j \in DOMAIN scn.methods : scn.methods[j].meta = "schemas")
                \/ "DocstringNullType" \in Deviations /\ scn.kind = "openrpc" /\ scn.extractor = "doc"
 Generate == /\ docs' = Append(docs, DocOf(heap))
             /\ heap' = heap
